@@ -71,6 +71,7 @@ const (
 	exclNestedLambda     = true  // K3
 	exclUnaryMinus       = true  // K4
 	exclNestedTypeChange = true  // K5
+	exclManyArgs         = true  // K6
 )
 
 func genWith(r *kit.Rec) func(t *rapid.T) Case {
@@ -397,7 +398,8 @@ func hasMathBin(t *Tree) bool {
 
 // k1Step: an entry that evaluates a math operator through a specialised parent without the
 // types having been refreshed by Type(): Eval<T> without Type() on a root math operator, or
-// Eval<T != bool> (with or without Type()) on a root comparison over a math operator.
+// Eval<T != bool> (with or without Type()) on a root comparison (which then also evaluates its
+// operands through the stale specialisation: the K2 mechanism if they are stateful).
 func k1Step(root *Tree, entry, x string) bool {
 	if entry == "eval" {
 		return false
@@ -405,7 +407,50 @@ func k1Step(root *Tree, entry, x string) bool {
 	if isMathBin(root) {
 		return entry == "typed"
 	}
-	return isCmpBin(root) && hasMathBin(root) && x != "bool"
+	return isCmpBin(root) && x != "bool"
+}
+
+// isDyn mirrors NodeEvaluator.IsDynamic (used only to delimit the K1 class, not by an oracle).
+func isDyn(n *Tree) bool {
+	switch n.K {
+	case "ref", "fn":
+		return true
+	case "lam":
+		return isDyn(n.A[0])
+	case "un":
+		return n.S == "-" && isDyn(n.A[0])
+	case "bin":
+		return isMathOp(n.S) && (isDyn(n.A[0]) || isDyn(n.A[1]))
+	}
+	return false
+}
+
+// k1NotNodes: `!` nodes below a binary operator over two operands of constant type
+// (comparisons, !x, literals) whose operand is not boolean at some step: the type guard
+// raised by the operand makes the operator unusable for good.
+func k1NotNodes(c *Case) []*Tree {
+	var out []*Tree
+	per := perStepTypes(c)
+	c.Tree.walk(func(n *Tree) {
+		if n.K != "bin" || isDyn(n.A[0]) || isDyn(n.A[1]) {
+			return
+		}
+		for _, ch := range n.A {
+			for ch.K == "lam" {
+				ch = ch.A[0]
+			}
+			if ch.K != "un" || ch.S != "!" {
+				continue
+			}
+			for _, m := range per {
+				if m[ch.A[0]] != tBool {
+					out = append(out, ch)
+					break
+				}
+			}
+		}
+	})
+	return out
 }
 
 func pinNames(c *Case, nodes []*Tree) {
@@ -450,6 +495,12 @@ func sanitize(c *Case) []string {
 		}
 	}
 	if exclStuck {
+		if ns := k1NotNodes(c); len(ns) > 0 {
+			for _, n := range ns {
+				n.A[0] = &Tree{K: "bool", B: true}
+			}
+			ex = append(ex, "K1 operator over constant-typed operands one of which is a `!` over a value that is not boolean at some step (operand replaced by TRUE)")
+		}
 		n := 0
 		for i := range c.Steps {
 			s := &c.Steps[i]
@@ -460,7 +511,7 @@ func sanitize(c *Case) []string {
 				s.Entry = "type+typed"
 				n++
 			}
-			if isCmpBin(c.Tree) && hasMathBin(c.Tree) && (s.X != "bool" || s.FX != "bool") {
+			if isCmpBin(c.Tree) && (s.X != "bool" || s.FX != "bool") {
 				if s.X != "" && s.X != "bool" {
 					s.X = "bool"
 				}
@@ -478,6 +529,18 @@ func sanitize(c *Case) []string {
 		}
 		c.Groups = 1
 		ex = append(ex, "K3 stateful function inside a nested lambda with more than one group (reduced to one group)")
+	}
+	if exclManyArgs {
+		many := false
+		c.Tree.walk(func(n *Tree) {
+			if n.K == "fn" && len(n.A) > 4 {
+				n.A = n.A[:4]
+				many = true
+			}
+		})
+		if many {
+			ex = append(ex, "K6 call with more than 4 arguments: Type() panics (arguments truncated to 4)")
+		}
 	}
 	// faults on entry points without recover belong to C05
 	if n := faultsToEval(c); n > 0 {
@@ -520,6 +583,8 @@ func faultsToEval(c *Case) int {
 // requested types of the steps executed so far.
 func classify(c *Case, xs []string) string {
 	switch {
+	case manyArgs(c.Tree):
+		return "eval/type-panics-on-more-than-4-arguments"
 	case len(k4Nodes(c)) > 0:
 		return "eval/unary-minus-on-non-numeric"
 	case len(k2Nodes(c)) > 0:
@@ -529,12 +594,28 @@ func classify(c *Case, xs []string) string {
 	case len(k5Nodes(c)) > 0:
 		return "eval/nested-operator-type-change-not-respecialised"
 	}
+	if len(k1NotNodes(c)) > 0 {
+		return "eval/binary-operator-stuck-after-failed-respecialisation"
+	}
 	for i, s := range c.Steps {
 		if i < len(xs) && xs[i] != "" && k1Step(c.Tree, s.Entry, xs[i]) {
+			if isCmpBin(c.Tree) && c.Tree.hasStateful() {
+				return "eval/stateful-restepped-on-respecialise"
+			}
 			return "eval/binary-operator-stuck-after-failed-respecialisation"
 		}
 	}
 	return ""
+}
+
+func manyArgs(t *Tree) bool {
+	found := false
+	t.walk(func(n *Tree) {
+		if n.K == "fn" && len(n.A) > 4 {
+			found = true
+		}
+	})
+	return found
 }
 
 func hasEntry(c *Case, e string) bool {
@@ -778,6 +859,139 @@ func fmtBind(names []string, b map[string]SV) string {
 	return "{" + strings.Join(parts, " ") + "}"
 }
 
+// oracleA follows the reference interpreter along a history: per group the set of states
+// the stateful functions may be in (one state unless a step failed, see assumptions).
+type oracleA struct {
+	tree     *Tree
+	sites    map[*Tree]int
+	hasState bool
+	cands    map[int][][]fstate
+	dead     map[int]bool // the group is no longer judged (an unspecified step may have moved its state)
+	labels   map[string]int
+	cc       *kit.Case
+}
+
+func newOracleA(tree *Tree, cc *kit.Case) *oracleA {
+	sites := siteIndex(tree)
+	return &oracleA{tree: tree, sites: sites, hasState: len(sites) > 0, cands: map[int][][]fstate{}, dead: map[int]bool{}, labels: map[string]int{}, cc: cc}
+}
+
+// predict evaluates the reference for every candidate state of the group.
+func (a *oracleA) predict(g int, bind map[string]SV) []refOutcome {
+	if a.cands[g] == nil {
+		st := make([]fstate, len(a.sites))
+		for j := range st {
+			st[j] = newFstate()
+		}
+		a.cands[g] = [][]fstate{st}
+	}
+	var preds []refOutcome
+	for j, st := range a.cands[g] {
+		in := &interp{scope: bind, st: append([]fstate(nil), st...), sites: a.sites}
+		if j == 0 && !a.dead[g] {
+			in.labels = a.labels
+		}
+		v, re := in.eval(a.tree)
+		preds = append(preds, refOutcome{v: v, e: re, after: in.st, snaps: in.snaps, skippedIll: in.skippedIll})
+	}
+	return preds
+}
+
+// judge compares the observed outcome with the predictions and advances the candidate
+// states. why != "": the property is violated (generic = failure signature).
+func (a *oracleA) judge(g int, preds []refOutcome, o outcome, entry, x string) (why, generic string) {
+	if a.dead[g] {
+		return "", ""
+	}
+	unspec := ""
+	for _, p := range preds {
+		if p.e != nil && p.e.k == kFault && entry != "eval" {
+			// process-fatal class (C05): whatever happened is not judged here
+			a.cc.Label("fault-on-non-recovering-entry(not judged)")
+			a.dead[g] = true
+			return "", ""
+		}
+		if p.e != nil && p.e.k == kUnspec {
+			unspec = p.e.why
+		}
+	}
+	if unspec != "" {
+		a.cc.Label("unspecified: " + unspec)
+		if o.panic != "" && entry == "eval" {
+			return "panic escaped the entry point", "eval/panic"
+		}
+		if a.hasState {
+			a.dead[g] = true
+		}
+		return "", ""
+	}
+	var next [][]fstate
+	add := func(st []fstate) {
+		for _, q := range next {
+			if sameStates(q, st) {
+				return
+			}
+		}
+		next = append(next, st)
+	}
+	tolerated := false
+	for pass := 0; pass < 2 && len(next) == 0; pass++ {
+		// pass 0: candidates that agree exactly; pass 1: candidates that differ only in a
+		// non-float value derived from sigma() (tolerated, the group is not followed further)
+		for j, p := range preds {
+			m, w := match(p, o, entry, x)
+			if m == mNo {
+				if j == 0 || why == "" {
+					why = w
+				}
+				continue
+			}
+			if (m == mTolerated) != (pass == 1) {
+				continue
+			}
+			if m == mTolerated {
+				tolerated = true
+			}
+			if o.err != "" { // the step failed: evaluation may have stopped at any stateful call
+				add(a.cands[g][j])
+				for _, sn := range p.snaps {
+					add(sn)
+				}
+			}
+			add(p.after)
+		}
+	}
+	if len(next) == 0 {
+		generic = "eval/value-mismatch"
+		switch why {
+		case "error expected":
+			generic = "eval/error-not-reported"
+		case "unexpected error", "Type() reports an error for a well-typed expression":
+			generic = "eval/unexpected-error"
+		case "panic escaped the entry point":
+			generic = "eval/panic"
+		}
+		if strings.HasPrefix(why, "Type() =") {
+			generic = "eval/type-mismatch"
+		}
+		return why, generic
+	}
+	switch {
+	case tolerated:
+		a.cc.Label("sigma-derived-mismatch-tolerated")
+		a.dead[g] = true
+	case len(next) > 12:
+		a.cc.Label("candidate-states>12(group dropped)")
+		a.dead[g] = true
+	default:
+		if len(next) > 1 {
+			a.cc.Label("candidate-states>1")
+		}
+		a.cands[g] = next
+	}
+	return "", ""
+}
+
 func run(c Case, cc *kit.Case) {
 	node, err := build(c.Tree)
 	if err != nil {
@@ -788,7 +1002,7 @@ func run(c Case, cc *kit.Case) {
 	base, cerr := stateful.NewExpression(node)
 	if cerr != nil {
 		if _, _, bad := constType(c.Tree); !bad {
-			cc.Fail("eval/compile-rejected", "NewExpression rejects %s although no constant sub-expression is ill-typed: %v", c.Tree, cerr)
+			cc.Fail("eval/compile-rejected", "NewExpression rejects %s although no constant sub-expression is ill-typed: %v\n[sig=eval/compile-rejected]", c.Tree, cerr)
 		}
 		cc.Label("rejected-at-compile-time")
 		return
@@ -799,22 +1013,13 @@ func run(c Case, cc *kit.Case) {
 		if sig == "" {
 			sig = generic
 		}
-		cc.Fail(sig, "expression %s\n%s", c.Tree, fmt.Sprintf(format, args...))
+		cc.Fail(sig, "expression %s\n%s\n[sig=%s]", c.Tree, fmt.Sprintf(format, args...), sig)
 	}
 
-	sites := siteIndex(c.Tree)
-	hasState := len(sites) > 0
-	newState := func() []fstate {
-		st := make([]fstate, len(sites))
-		for j := range st {
-			st[j] = newFstate()
-		}
-		return st
-	}
+	oa := newOracleA(c.Tree, cc)
+	hasState := oa.hasState
+	labels := oa.labels
 	exprs := map[int]stateful.Expression{}
-	cands := map[int][][]fstate{}
-	dead := map[int]bool{}
-	labels := map[string]int{}
 	outs := make([]outcome, len(c.Steps))
 	stepErr, stepOK := false, false
 
@@ -827,18 +1032,9 @@ func run(c Case, cc *kit.Case) {
 				e = base
 			}
 			exprs[s.G] = e
-			cands[s.G] = [][]fstate{newState()}
 		}
 		// reference first (it also decides the requested type of typed entries)
-		var preds []refOutcome
-		for j, st := range cands[s.G] {
-			in := &interp{scope: s.Bind, st: append([]fstate(nil), st...), sites: sites}
-			if j == 0 && !dead[s.G] {
-				in.labels = labels
-			}
-			v, re := in.eval(c.Tree)
-			preds = append(preds, refOutcome{v: v, e: re, after: in.st, snaps: in.snaps, skippedIll: in.skippedIll})
-		}
+		preds := oa.predict(s.G, s.Bind)
 		x := s.X
 		if x == "" {
 			x = s.FX
@@ -847,12 +1043,6 @@ func run(c Case, cc *kit.Case) {
 			}
 		}
 		xs[i] = x
-		fault := false
-		for _, p := range preds {
-			if p.e != nil && p.e.k == kFault {
-				fault = true
-			}
-		}
 		o := call(e, mkScope(c.Names, s.Bind), s.Entry, x)
 		outs[i] = o
 		if o.err != "" {
@@ -860,76 +1050,7 @@ func run(c Case, cc *kit.Case) {
 		} else {
 			stepOK = true
 		}
-		if dead[s.G] {
-			continue
-		}
-		if fault && s.Entry != "eval" {
-			// process-fatal class (C05): whatever happened is not judged here
-			cc.Label("fault-on-non-recovering-entry(not judged)")
-			dead[s.G] = true
-			continue
-		}
-		unspec := ""
-		for _, p := range preds {
-			if p.e != nil && p.e.k == kUnspec {
-				unspec = p.e.why
-			}
-		}
-		if unspec != "" {
-			cc.Label("unspecified: " + unspec)
-			if o.panic != "" && s.Entry == "eval" {
-				fail("eval/panic", "step %d %s entry %s: %v", i, fmtBind(c.Names, s.Bind), s.Entry, o)
-				return
-			}
-			if hasState {
-				dead[s.G] = true
-			}
-			continue
-		}
-		var next [][]fstate
-		add := func(st []fstate) {
-			for _, q := range next {
-				if sameStates(q, st) {
-					return
-				}
-			}
-			next = append(next, st)
-		}
-		why, tolerated := "", false
-		for j, p := range preds {
-			m, w := match(p, o, s.Entry, x)
-			if m == mNo {
-				if j == 0 || why == "" {
-					why = w
-				}
-				continue
-			}
-			if m == mTolerated {
-				tolerated = true
-			}
-			if o.err != "" { // the step failed: evaluation may have stopped at any stateful call
-				add(cands[s.G][j])
-				for _, sn := range p.snaps {
-					add(sn)
-				}
-				add(p.after)
-			} else {
-				add(p.after)
-			}
-		}
-		if len(next) == 0 {
-			generic := "eval/value-mismatch"
-			switch why {
-			case "error expected":
-				generic = "eval/error-not-reported"
-			case "unexpected error", "Type() reports an error for a well-typed expression":
-				generic = "eval/unexpected-error"
-			case "panic escaped the entry point":
-				generic = "eval/panic"
-			}
-			if strings.HasPrefix(why, "Type() =") {
-				generic = "eval/type-mismatch"
-			}
+		if why, generic := oa.judge(s.G, preds, o, s.Entry, x); why != "" {
 			var hist []string
 			for k := 0; k <= i; k++ {
 				hist = append(hist, fmt.Sprintf("  step %d g%d %-10s %s -> %v", k, c.Steps[k].G, c.Steps[k].Entry+"/"+xs[k], fmtBind(c.Names, c.Steps[k].Bind), outs[k]))
@@ -938,20 +1059,6 @@ func run(c Case, cc *kit.Case) {
 				i, s.G, s.Entry, x, why, o, preds[0], len(preds), strings.Join(hist, "\n"))
 			return
 		}
-		if tolerated {
-			cc.Label("sigma-derived-mismatch-tolerated")
-			dead[s.G] = true
-			continue
-		}
-		if len(next) > 12 {
-			cc.Label("candidate-states>12(group dropped)")
-			dead[s.G] = true
-			continue
-		}
-		if len(next) > 1 {
-			cc.Label("candidate-states>1")
-		}
-		cands[s.G] = next
 	}
 
 	// ---- oracle B: fresh-vs-aged differential
@@ -1051,4 +1158,22 @@ func TestEval(t *testing.T) {
 func TestReplayEval(t *testing.T) {
 	r := kit.NewRec("C04", "Eval", rule, assumptions...)
 	kit.Replay(t, r, run)
+}
+
+// FuzzEval: the Eval property under Go's coverage-guided fuzzer (thorough tier only).
+func FuzzEval(f *testing.F) {
+	r := kit.NewRec("C04", "FuzzEval", rule, assumptions...)
+	gen := genWith(r)
+	f.Add([]byte{})
+	f.Add([]byte("\x01\x02\x03\x04\x05\x06\x07\x08\x09\x0a\x0b\x0c\x0d\x0e\x0f\x10\x11\x12\x13\x14\x15\x16\x17\x18"))
+	f.Add([]byte("count() * r; the quick brown fox jumps over the lazy dog 0123456789 0123456789 0123456789"))
+	f.Fuzz(rapid.MakeFuzz(func(t *rapid.T) {
+		c := gen(t)
+		cc := r.Begin(c)
+		run(c, cc)
+		cc.End()
+		if cc.Failed() {
+			t.Fatalf("%s", cc.Message())
+		}
+	}))
 }
